@@ -287,9 +287,12 @@ class C11(PropCheck):
                 mgrs = [{"id": i, "kind": "plain", "uw": i + 1, "el": {"desc": i % 50}} for i in range(n)]
                 mgrs.append({"id": n, "kind": "plain", "uw": end, "el": None})
                 out.append({"k": "fill", "obj": 0, "exiting": False, "mgrs": mgrs, "where": "outside"})
+                out.append({"k": "fill", "obj": 0, "exiting": False, "mgrs": mgrs, "where": "exitstack"})
         return out
 
     def model_line(self, case):
+        if case["where"] == "exitstack":
+            return None
         return json.dumps({"p": "C11", "obj": case["obj"], "exiting": case["exiting"], "mgrs": case["mgrs"]})
 
     def run_real(self, case):
@@ -314,6 +317,27 @@ class C11(PropCheck):
             except RuntimeError:
                 pass
             return lab.show(ctx, outcome)
+        if case["where"] == "exitstack":
+            # the manager was entered through an ExitStack: its context is a child context built by the contextlib glue, which
+            # goes through the same loop
+            import contextlib
+
+            stk = contextlib.ExitStack()
+            stk.enter_context(mgr0)
+            ctx = ss.Context(obj=stk, is_async=False)
+            outcome = "ok"
+            with lab.logging():
+                try:
+                    ss.fill_context(ctx)
+                except Injected as e:
+                    outcome = f"raised{e.e}"
+                except RuntimeError as e:
+                    outcome = "guard" if "unwrapped more than" in str(e) else f"RuntimeError({e})"
+            trace = [t for t in lab.trace if not t.endswith("?")]          # (the hooks also see the stack object itself)
+            if len(trace) > 24:
+                trace = trace[:12] + [f"..{len(trace)}.."] + trace[-4:]
+            stk.pop_all()
+            return f"exitstack trace=[{' '.join(trace)}] {outcome}"
         if case["where"] == "frame":
             first = lab.M(9000)
             lab.table[9000] = {"id": 9000, "kind": "plain", "uw": None, "el": {"raise": 9777} if case.get("first_raises") else None}
@@ -411,6 +435,8 @@ class C11(PropCheck):
             trace = trace[:12] + [f"..{len(trace)}.."] + trace[-4:]
         want = (f"obj={obj} hide={'T' if hide else 'F'} inner={inner} children=[{', '.join(str(c) for c in children)}] "
                 f"desc={desc} trace=[{' '.join(trace)}] {outcome}")
+        if case["where"] == "exitstack":
+            want = f"exitstack trace=[{' '.join(trace)}] {outcome}"
         if want != real:
             return f"fill_context ({case['where']} extract) deviates from the documented loop: expected [{want}] observed [{real}]"
         hp = self._hook_problems.get(id(case))
@@ -424,7 +450,7 @@ class C11(PropCheck):
         return None
 
     def stats(self, cases, reals):
-        d = {"outside": 0, "inside": 0, "frame": 0, "exiting": 0, "guard": 0, "prune": 0, "raised": 0, "with_gcm": 0, "replaced": 0}
+        d = {"outside": 0, "inside": 0, "frame": 0, "exitstack": 0, "exiting": 0, "guard": 0, "prune": 0, "raised": 0, "with_gcm": 0, "replaced": 0}
         for c, r in zip(cases, reals):
             d[c["where"]] += 1
             d["exiting"] += c["exiting"]
